@@ -17,19 +17,19 @@ CONSTANTS Tier, Seed, Mod, TickMs
 
 \* scope per tier (cfg files cannot hold negative numbers or tuples)
 Q == Tier = "quick"
-MaxT       == IF Q THEN 6 ELSE 9
-MaxSamples == IF Q THEN 3 ELSE 4
+MaxT       == IF Q THEN 6 ELSE 7
+MaxSamples == 3
 Lookbacks  == IF Q THEN {2, 3} ELSE {1, 2, 3}
-QLookbacks == IF Q THEN {0, 1} ELSE {0, 1, 4}
-Offsets    == IF Q THEN {-1, 0, 2} ELSE {-2, -1, 0, 1, 2}
+QLookbacks == IF Q THEN {0, 1} ELSE {0, 4}
+Offsets    == IF Q THEN {-1, 0, 2} ELSE {-2, -1, 0, 2}
 Steps      == IF Q THEN {0, 1, 2} ELSE {0, 1, 2, 3}
-Starts     == IF Q THEN {1, 4} ELSE {0, 1, 4, 8}
+Starts     == IF Q THEN {1, 4} ELSE {0, 1, 4}
 NSteps     == IF Q THEN {4} ELSE {1, 4}
 AtP(k, v)  == [k |-> k, v |-> v]
 Ats        == IF Q THEN {AtP("none", 0), AtP("start", 0), AtP("end", 0), AtP("lit", 3)}
-                   ELSE {AtP("none", 0), AtP("start", 0), AtP("end", 0), AtP("lit", 0), AtP("lit", 3), AtP("lit", 12)}
+                   ELSE {AtP("none", 0), AtP("start", 0), AtP("end", 0), AtP("lit", 0), AtP("lit", 3)}
 \* "merged": the selector next to a broader selector of the same metric, so that MergeSelects rewrites it
-Contexts   == IF Q THEN {"bare", "sumby", "merged"} ELSE {"bare", "paren", "sumby", "mul1", "merged"}
+Contexts   == IF Q THEN {"bare", "sumby", "merged"} ELSE {"bare", "sumby", "mul1", "merged"}
 
 Kinds == {"-", "f", "s"}
 Layouts == {lay \in [0..MaxT -> Kinds] : Cardinality({u \in 0..MaxT : lay[u] # "-"}) <= MaxSamples}
